@@ -27,6 +27,11 @@ def leVal : Bytes → Nat
   | [] => 0
   | b :: bs => b + 256 * leVal bs
 
+/-- start positions of consecutive regions of the given lengths, from `acc` -/
+def starts : Nat → List Nat → List Nat
+  | _, [] => []
+  | acc, l :: t => acc :: starts (acc + l) t
+
 namespace Proto
 
 def hexDigit (n : Nat) : Char :=
